@@ -351,7 +351,7 @@ def _z3_try(ob, timeout_ms):
 
 
 def _race(text, budget_s):
-    """run cvc5 and the z3 5.1 CLI on the same SMT-LIB text concurrently; first definitive answer wins"""
+    """run cvc5, the z3 5.1 CLI and z3 4.8 on the same SMT-LIB text concurrently; the first 'unsat' wins"""
     with tempfile.NamedTemporaryFile('w', suffix='.smt2', delete=False, dir=os.environ.get('PYVC_TMP', '/dev/shm')) as fh:
         fh.write(text)
         fn = fh.name
@@ -374,10 +374,19 @@ def _race(text, budget_s):
                     answers[k] = out[0].strip() if out else 'timeout'
                     del procs[k]
                     # z3's sequence solver can answer 'sat' with an unsound model; without the model to
-                    # re-check, only cvc5's 'sat' is taken as definitive (any back end's 'unsat' is)
-                    if answers[k] == 'unsat' or (answers[k] == 'sat' and k.startswith('cvc5')):
-                        return k, answers[k], answers
+                    # re-check, only cvc5's 'sat' counts (any back end's 'unsat' is definitive).  A cvc5 'sat' is held
+                    # until the other solvers have answered or run out of time: an 'unsat' from one of them makes it a
+                    # disagreement (undecided), not a refutation
+                    if answers[k] == 'unsat':
+                        if any(v_ == 'sat' and k_.startswith('cvc5') for k_, v_ in answers.items()):
+                            return None, 'unknown', dict(answers, note='solver disagreement: cvc5 sat, %s unsat' % k)
+                        return k, 'unsat', answers
+            if not procs or time.time() - t0 >= budget_s + 5:
+                break
             time.sleep(0.02)
+        for k_, v_ in answers.items():
+            if v_ == 'sat' and k_.startswith('cvc5'):
+                return k_, 'sat', answers
         return None, 'unknown', answers
     finally:
         for p in procs.values():
